@@ -66,6 +66,7 @@ func c24Render(t *rapid.T, v consoleui.VerifView, what string, desc string) stri
 }
 
 func TestC24(t *testing.T) {
+	runWitnesses(t, "C24")
 	col := ev.New("C24", "rapid: view states of the real UI: (a) listing view of the disassembler mode over synthetic programs "+
 		"(3-70 lines) with the cursor on any line; (b) register view over 0-40 constant registers of widths 1-16 with and "+
 		"without the instruction pointer register; (c) memory view over the memories of C32 with the cursor on any row; "+
